@@ -38,11 +38,9 @@ def LOG_10 : α := ln (lit 10)
 /-! ## `fabs` comparisons exactly as C evaluates them on doubles (a NaN compares false) -/
 
 /-- `fabs(x) > t` -/
-def absGt (x t : α) : Prop := t < x ∨ t < -x
+def absGt (x t : α) : Bool := decide (t < x) || decide (t < -x)
 /-- `fabs(x) < t` -/
-def absLt (x t : α) : Prop := x < t ∧ -x < t
-instance (x t : α) : Decidable (absGt x t) := by unfold absGt; exact inferInstance
-instance (x t : α) : Decidable (absLt x t) := by unfold absLt; exact inferInstance
+def absLt (x t : α) : Bool := decide (x < t) && decide (-x < t)
 /-- `fabs` -/
 def absv (x : α) : α := if x < lit 0 then -x else x
 def maxv (x y : α) : α := if x < y then y else x
@@ -163,6 +161,22 @@ def electroTermCD (tk dz0 dz1 dz2 psi0 psi1 psi2 : α) : α :=
 def laLaw (lk electro : α) (toks : List (Tok α)) : α :=
   toks.foldl (fun acc t => acc + t.la * t.coef) lk + electro
 
+/-! ## derived CD-MUSIC charge distribution (`read_surface_species`, option `-cd_music`) -/
+
+/-- `dz[0] = cd_music[0] + cd_music[3]*cd_music[4]`, `dz[1] = cd_music[1] + (1 - cd_music[3])*cd_music[4]`,
+`dz[2] = cd_music[2]` -/
+def cdDz (c0 c1 c2 c3 c4 : α) : α × α × α := (c0 + c3 * c4, c1 + (lit 1 - c3) * c4, c2)
+
+/-! ## judging a recomputed relation (tolerances of the property: 1e-8 relative) -/
+
+/-- `|a - b| ≤ rel·max(|a|,|b|)` or `|a - b| ≤ abs` -/
+def close (rel abs a b : α) : Bool :=
+  let d := absv (a - b)
+  decide (d ≤ rel * maxv (absv a) (absv b)) || decide (d ≤ abs)
+
+/-- `under(lm)` for ordinary magnitudes: `10^lm` computed as `exp(lm·LOG_10)` -/
+def pow10 (x : α) : α := exp (x * LOG_10)
+
 /-! ## the convergence gate (`residuals` decides CONVERGED, `check_residuals` reports ERROR) -/
 
 /-- a surface-related row of the Newton system, with the data its residual is computed from -/
@@ -196,35 +210,29 @@ def Row.resid (e : Env α) : Row α → α
   | .cb _ r => r
 
 /-- the condition under which `residuals` sets `converge = FALSE` for the row -/
-def Row.fails (e : Env α) (r : Row α) : Prop :=
+def Row.fails (e : Env α) (r : Row α) : Bool :=
   match r with
   | .site moles f =>
       let res := moles - f
       if moles ≤ e.minRel then absGt res e.tol
-      else if absLt res e.ineqTol ∧ absLt res (lit (1 / 100) * moles) then False
+      else if absLt res e.ineqTol && absLt res (lit (1 / 100) * moles) then false
       else absGt res (e.tol * moles)
-  | .ddl grams _ _ _ => e.minRel < grams ∧ absGt (r.resid e) e.tol
-  | .ccm grams _ _ _ _ => e.minRel < grams ∧ absGt (r.resid e) e.tol
-  | .dl grams _ => e.minRel < grams ∧ absGt (r.resid e) e.tol
-  | .cb grams res => e.minRel < grams ∧ absGt res e.tol
-
-instance (e : Env α) (r : Row α) : Decidable (r.fails e) := by
-  cases r <;> simp only [Row.fails] <;> exact inferInstance
+  | .ddl grams _ _ _ => decide (e.minRel < grams) && absGt (r.resid e) e.tol
+  | .ccm grams _ _ _ _ => decide (e.minRel < grams) && absGt (r.resid e) e.tol
+  | .dl grams _ => decide (e.minRel < grams) && absGt (r.resid e) e.tol
+  | .cb grams res => decide (e.minRel < grams) && absGt res e.tol
 
 /-- the condition under which `check_residuals` emits an ERROR message for the row -/
-def Row.checkError (e : Env α) (r : Row α) : Prop :=
+def Row.checkError (e : Env α) (r : Row α) : Bool :=
   match r with
   | .site moles f =>
       let res := moles - f
-      if absLt res e.ineqTol ∧ absLt res (lit (1 / 100) * moles) then False
-      else (moles ≤ e.minRel ∧ absGt res e.tol) ∨ (e.minRel < moles ∧ absGt res (e.tol * moles))
-  | .ddl grams _ _ _ => e.minRel < grams ∧ absGt (r.resid e) e.tol
-  | .ccm grams _ _ _ _ => e.minRel < grams ∧ absGt (r.resid e) e.tol
-  | .dl grams _ => e.minRel < grams ∧ absGt (r.resid e) e.tol
-  | .cb grams res => e.minRel < grams ∧ absGt res e.tol
-
-instance (e : Env α) (r : Row α) : Decidable (r.checkError e) := by
-  cases r <;> simp only [Row.checkError] <;> exact inferInstance
+      if absLt res e.ineqTol && absLt res (lit (1 / 100) * moles) then false
+      else (decide (moles ≤ e.minRel) && absGt res e.tol) || (decide (e.minRel < moles) && absGt res (e.tol * moles))
+  | .ddl grams _ _ _ => decide (e.minRel < grams) && absGt (r.resid e) e.tol
+  | .ccm grams _ _ _ _ => decide (e.minRel < grams) && absGt (r.resid e) e.tol
+  | .dl grams _ => decide (e.minRel < grams) && absGt (r.resid e) e.tol
+  | .cb grams res => decide (e.minRel < grams) && absGt res e.tol
 
 /-- state of the solver as far as the surface rows are concerned: the environment, the surface rows and
 `other` = "every other row passes its test" -/
@@ -234,10 +242,10 @@ structure State (α : Type) where
   other : Bool
 
 /-- `residuals() == CONVERGED` -/
-def converged (s : State α) : Bool := s.other && s.rows.all (fun r => !decide (r.fails s.env))
+def converged (s : State α) : Bool := s.other && s.rows.all (fun r => !r.fails s.env)
 
 /-- `check_residuals` raises no ERROR message -/
-def checkOk (s : State α) : Bool := s.rows.all (fun r => !decide (r.checkError s.env))
+def checkOk (s : State α) : Bool := s.rows.all (fun r => !r.checkError s.env)
 
 /-- `model()`: iterate an ARBITRARY step (jacobian, ineq, reset, gammas, molalities, mb_sums, basis switches …)
 until `residuals` reports CONVERGED; give up after `itmax` iterations; after convergence `check_residuals` must
